@@ -17,7 +17,7 @@ use std::collections::HashMap;
 
 pub const CHECK: Check = Check { id: "C15", level: "exploration", flavours: &["prod"], run, replay };
 
-const RULE: &str = "cases = (operation in {write, repair in the default and in the 'even unauthenticated' mode, linear extract}, layer set, compression level, data class random / compressible, \
+const RULE: &str = "cases = (operation in {write, write from a source that ends long before the announced size, repair in the default and in the 'even unauthenticated' mode, linear extract}, layer set, compression level, data class random / compressible, \
 append piece size, number of files, interleaving on/off), each executed twice in a worker process of its own: streaming S bytes \
 and streaming k*S bytes (quick: 32 MiB vs 128 MiB; thorough: 64 MiB vs 1 GiB) from an on-the-fly generator into a counting \
 sink (inputs of repair / extract are files under /verif/.work). Oracle: peak live heap measured by a counting global \
@@ -44,6 +44,10 @@ pub struct Case {
     /// repair only: the reader configuration asks for data even from chunks whose tag cannot be verified
     #[serde(default)]
     pub unauth: bool,
+    /// write only: the one append announces the whole amount but its source ends after 1 MiB (the call must fail;
+    /// what is measured is the memory it uses on the way)
+    #[serde(default)]
+    pub short_source: bool,
 }
 
 fn write_archive<W: std::io::Write>(c: &Case, total: u64, nfiles: usize, sink: W) -> Result<W, String> {
@@ -100,6 +104,19 @@ fn write_archive<W: std::io::Write>(c: &Case, total: u64, nfiles: usize, sink: W
 fn measure(c: &Case, total: u64, nfiles: usize) -> Result<usize, String> {
     let keys = prog::keys_for(c.seed as u64, 1, 0);
     match c.op % 3 {
+        0 if c.short_source => {
+            let class = if c.compressible { DataClass::Text } else { DataClass::Random };
+            let base = alloc::reset_peak();
+            let mut w = ArchiveWriter::from_config(CountingSink::default(), prog::writer_config(c.layers & 3, c.level, &keys.publics)).map_err(|e| format!("{e:?}"))?;
+            let id = w.start_file("f0").map_err(|e| format!("{e:?}"))?;
+            let mut src = GenSource::new(class, c.seed as u64, 1 << 20);
+            let r = w.append_file_content(id, total, &mut src);
+            let peak = alloc::peak().saturating_sub(base);
+            if r.is_ok() {
+                return Err("HARNESS: an append whose source ended early was accepted (C09 judges that)".into());
+            }
+            Ok(peak)
+        }
         0 => {
             let base = alloc::reset_peak();
             let sink = write_archive(c, total, nfiles, CountingSink::default())?;
@@ -201,7 +218,7 @@ pub fn worker(args: &[String]) -> i32 {
 
 pub fn judge(c: &Case, a: usize, b: usize, thorough: bool) -> Result<(), String> {
     let mib = |x: usize| x as f64 / (1 << 20) as f64;
-    let opn = if c.unauth { "repair (unauthenticated mode)" } else { ["write", "repair", "linear extract"][(c.op % 3) as usize] };
+    let opn = if c.short_source { "write (source ends early)" } else if c.unauth { "repair (unauthenticated mode)" } else { ["write", "repair", "linear extract"][(c.op % 3) as usize] };
     if c.family == 0 {
         if b > 96 << 20 {
             return Err(format!("{opn} ({}, level {}): peak heap {:.1} MiB while streaming the larger amount (ceiling 96 MiB)", prog::layers_name(c.layers), c.level, mib(b)));
@@ -254,7 +271,7 @@ fn case() -> impl Strategy<Value = Case> {
             // repair allocates (and zeroes) its 8 MiB buffer for every content block it meets: archives made of
             // tiny blocks make it slow, which is not what this check measures
             let piece = if op % 3 == 1 { piece.max(65536) } else { piece };
-            Case { op, layers, level, compressible, piece, nfiles, interleave, family, seed, unauth }
+            Case { op, layers, level, compressible, piece, nfiles, interleave, family, seed, unauth, short_source: false }
         })
 }
 
@@ -412,6 +429,15 @@ fn run(ctx: &Ctx) -> Report {
         c.family = 0;
         c.unauth = true;
         c.piece = c.piece.max(65536);
+    }
+    // directed: an append that announces the whole amount from a source that ends after 1 MiB
+    for (i, c) in cases.iter_mut().enumerate().skip(24).take(4) {
+        c.op = 0;
+        c.layers = (i % 4) as u8;
+        c.family = 0;
+        c.unauth = false;
+        c.short_source = true;
+        c.level = c.level.min(1);
     }
     let t0 = std::time::Instant::now();
     let mut st = Stats::default();
